@@ -3,6 +3,7 @@ package checks
 import (
 	"encoding/json"
 	"fmt"
+	"github.com/mikefarah/yq/v4/pkg/yqlib"
 	"strings"
 	"time"
 
@@ -21,7 +22,7 @@ var c03Ops = []string{
 	"sort", "sort_by(.a)", "reverse", "unique", ".[1:]", ".[:-1]", "map(.)", "map(select(. != 1))", "filter(. != 1)", "[.[]]",
 	". + [9]", "[9] + .", "flatten", "group_by(.a)", "to_entries", "with_entries(.)", `pick(["a"])`, "pick([1, 0])", `omit(["a"])`, "omit([0])",
 	".a", ".[0]", "(.a = (.a | sort))", "(.a |= reverse)", "(.b = .a)", "del(.[0])", "del(.a)", ". * {\"c\": [2, 1]}", "unique_by(.a)", "[.[] | select(. != 1)]",
-	"(.b = (.a | reverse))", "(.c = (.a | sort))", "(.b = (.a | .[1:]))", "(.c = [.a[]])", "(.b = (.a | map(.)))", "(.[0] = (.[1] | reverse))",
+	". - [1]", ".a - [0]", "(.a | keys)", "(.b = (.a | reverse))", "(.c = (.a | sort))", "(.b = (.a | .[1:]))", "(.c = [.a[]])", "(.b = (.a | map(.)))", "(.[0] = (.[1] | reverse))",
 }
 
 func c03Selections() []*refsem.E {
@@ -38,6 +39,8 @@ func c03Selections() []*refsem.E {
 		sel(refsem.Leaf("splat"), refsem.Bin("eq", refsem.Key("a"), one)),
 		refsem.Bin("pipe", refsem.Key("a"), refsem.Idx(0)), refsem.Bin("pipe", refsem.Idx(0), refsem.Key("a")),
 		refsem.Bin("pipe", refsem.Idx(1), refsem.Idx(0)), refsem.Bin("union", refsem.Idx(10), refsem.Idx(2)),
+		// a value computed from a node is not a node of the document: nothing is selected
+		refsem.Bin("pipe", refsem.Key("a"), refsem.Leaf("length")), refsem.Bin("pipe", refsem.Idx(0), refsem.Leaf("length")),
 	}
 }
 
@@ -71,9 +74,10 @@ func c03LeafDocs() []*val.V {
 func c03Text(v *val.V) string { return v.YAMLFlow() }
 
 type c03Case struct {
-	Doc  string    `json:"doc"`
-	Pipe []string  `json:"pipeline"`
-	Sel  *refsem.E `json:"selection"`
+	Doc      string    `json:"doc"`
+	Pipe     []string  `json:"pipeline"`
+	Sel      *refsem.E `json:"selection"`
+	Together []string  `json:"documents_evaluated_together,omitempty"`
 }
 
 // c03Check deletes sel in the state reached by pipe on doc; returns mismatch kind ("" = agree, "undef").
@@ -120,6 +124,49 @@ func c03Check(doc *val.V, pipe []string, sel *refsem.E) (kind, detail string) {
 	return "", ""
 }
 
+// c03CheckTogether: several documents evaluated together (eval-all); whole documents can be among the selected nodes.
+func c03CheckTogether(docs []*val.V, sel *refsem.E) (kind, detail string) {
+	var in []*val.V
+	var nodes []*yqlib.CandidateNode
+	for i, d := range docs {
+		in = append(in, d.Copy())
+		n := impl.Doc(d)
+		n.EvaluateTogether = true
+		n.SetDocument(uint(i))
+		nodes = append(nodes, n)
+	}
+	delE := refsem.Un("del", sel)
+	out := refsem.Run(delE, in)
+	if out.Undef != "" {
+		return "undef", out.Undef
+	}
+	parsed, perr, ppan := impl.Parse(delE.String())
+	if perr != nil || ppan != nil {
+		return "parse-error", fmt.Sprintf("%v %v", perr, ppan)
+	}
+	res, err, pan := impl.Eval(parsed, nodes...)
+	if pan != nil {
+		return "panic", fmt.Sprint(pan)
+	}
+	if out.Err != "" {
+		if err == nil {
+			return "missing-error", "reference: " + out.Err
+		}
+		return "", ""
+	}
+	if err != nil {
+		return "unexpected-error", fmt.Sprintf("yq: %v; reference [%s]", err, vlist(out.Results))
+	}
+	var got []*val.V
+	for _, r := range res {
+		got = append(got, impl.ToV(r))
+	}
+	if vlist(got) != vlist(out.Results) {
+		return "wrong-deletion", fmt.Sprintf("documents [%s] evaluated together; yq leaves [%s]; deleting exactly the selected nodes leaves [%s]", vlist(in), vlist(got), vlist(out.Results))
+	}
+	return "", ""
+}
+
 func c03Run(c *fw.Ctx) error {
 	c16Init()
 	docs := c03Docs(c.Tier)
@@ -130,7 +177,7 @@ func c03Run(c *fw.Ctx) error {
 	if c.Thorough() {
 		maxDepth = 3
 	}
-	c.Res.Bound = fmt.Sprintf("every state reached by <= %d of %d derivation operators from %d documents (plus 2 documents with an integer and a string key of the same text, as decoded) x %d selections", maxDepth, len(c03Ops), nDerived, len(sels))
+	c.Res.Bound = fmt.Sprintf("every state reached by <= %d of %d derivation operators from %d documents (plus 2 documents with an integer and a string key of the same text, as decoded) x %d selections; every triple of 5 documents evaluated together x 6 selections that can name whole documents", maxDepth, len(c03Ops), nDerived, len(sels))
 	type st struct{ pipe []string }
 	var order int64
 	for di, doc := range docs {
@@ -185,8 +232,15 @@ func c03Run(c *fw.Ctx) error {
 								producer = s.pipe[len(s.pipe)-1]
 							}
 							order++
-							c.Violation(kind+"/after="+producer+"/del("+sel.String()+")", int64(len(s.pipe))*1e9+int64(doc.Size())*1e6+order%1e6,
-								c03Case{c03Text(doc), s.pipe, sel}, fmt.Sprintf("doc %s | %s | del(%s): %s", c03Text(doc), strings.Join(s.pipe, " | "), sel.String(), detail))
+							sig := kind + "/after=" + producer + "/del(" + sel.String() + ")"
+							for _, op := range s.pipe {
+								if op == "(.a | keys)" {
+									// one root cause whatever is deleted and whatever follows: the list holds the map's live key nodes
+									sig = kind + "/list-returned-by-keys-of-a-map"
+								}
+							}
+							c.Violation(sig, int64(len(s.pipe))*1e9+int64(doc.Size())*1e6+order%1e6,
+								c03Case{Doc: c03Text(doc), Pipe: s.pipe, Sel: sel}, fmt.Sprintf("doc %s | %s | del(%s): %s", c03Text(doc), strings.Join(s.pipe, " | "), sel.String(), detail))
 						}
 					}
 				}
@@ -199,6 +253,43 @@ func c03Run(c *fw.Ctx) error {
 			frontier = next
 		}
 	}
+	// several documents evaluated together: every triple over a small pool x selections that can name whole documents
+	var pool []*val.V
+	for _, t := range []string{`{"a": 1}`, `{"a": 0}`, `{"a": 1, "b": 1}`, `[1, 0]`, `1`} {
+		pool = append(pool, fromJSONText(t))
+	}
+	one := refsem.Lit(val.IntV(1))
+	tsels := []*refsem.E{
+		refsem.Un("select", refsem.Bin("eq", refsem.Key("a"), one)), refsem.Un("select", refsem.Bin("eq", refsem.Leaf("self"), one)), refsem.Leaf("self"), refsem.Key("a"),
+		refsem.Un("select", refsem.Bin("eq", refsem.Key("a"), refsem.Lit(val.IntV(0)))), refsem.Bin("pipe", refsem.Leaf("splat"), refsem.Un("select", refsem.Bin("eq", refsem.Leaf("self"), one))),
+	}
+	var tidx int64
+	for _, x := range pool {
+		for _, y := range pool {
+			for _, z := range pool {
+				tidx++
+				if !c.Mine(tidx) || c.Expired() {
+					continue
+				}
+				for _, sel := range tsels {
+					ds := []*val.V{x, y, z}
+					kind, detail := c03CheckTogether(ds, sel)
+					c.Res.Evaluations++
+					switch kind {
+					case "":
+						c.Validated(1)
+						c.Nontrivial(fmt.Sprintf("together/%s|%s|%s/%s", x.JSON(), y.JSON(), z.JSON(), sel.String()))
+					case "undef":
+						c.Count("undefined_by_reference", 1)
+					default:
+						c.Validated(1)
+						c.Violation(kind+"/documents-evaluated-together/del("+sel.String()+")", int64(x.Size()+y.Size()+z.Size()),
+							c03Case{Sel: sel, Together: []string{x.JSON(), y.JSON(), z.JSON()}}, fmt.Sprintf("del(%s): %s", sel.String(), detail))
+					}
+				}
+			}
+		}
+	}
 	return nil
 }
 
@@ -207,6 +298,17 @@ func c03Replay(raw json.RawMessage) (bool, string, error) {
 	var cs c03Case
 	if err := json.Unmarshal(raw, &cs); err != nil {
 		return false, "", err
+	}
+	if len(cs.Together) > 0 {
+		var ds []*val.V
+		for _, t := range cs.Together {
+			ds = append(ds, fromJSONText(t))
+		}
+		kind, detail := c03CheckTogether(ds, cs.Sel)
+		if kind == "" || kind == "undef" {
+			return false, "", nil
+		}
+		return true, fmt.Sprintf("del(%s): %s: %s", cs.Sel.String(), kind, detail), nil
 	}
 	kind, detail := c03Check(fromJSONText(cs.Doc), cs.Pipe, cs.Sel)
 	if kind == "" || kind == "undef" {
